@@ -231,7 +231,7 @@ Definition run_text (cmd : Z) (args : list sexp) : option sexp :=
   end.
 
 (* ---- schema descriptions: strings are lists of code points *)
-From SV Require Import Schema.Model Schema.WfDec Schema.GMatch Schema.GRead Schema.GChain Schema.GObjectClass Schema.GDitContentRule Schema.GAttributeType Schema.GWfDec.
+From SV Require Import Rx.Syntax Schema.Model Schema.WfDec Schema.GMatch Schema.GRead Schema.GChain Schema.GObjectClass Schema.GDitContentRule Schema.GAttributeType Schema.GWfDec.
 Definition s_ustr (s : ustr) : sexp := SList (map s_n s).
 Definition g_ustr (s : sexp) : option ustr := g_list g_n s.
 Definition s_ulist := s_list s_ustr.
@@ -366,6 +366,27 @@ Definition g_atc (s : sexp) : option at_cst :=
   | _ => None
   end.
 
+(* the regular-expression engine on its own: <pattern>.match(text) -> end position and the span of every group *)
+Definition rx_by_id (i : Z) : option (rx * end_anchor * nat) :=
+  match i with
+  | 0%Z => Some (rx_object_class, rx_object_class_end, rx_object_class_ngroups)
+  | 1%Z => Some (rx_attribute_type, rx_attribute_type_end, rx_attribute_type_ngroups)
+  | 2%Z => Some (rx_dit_content_rule, rx_dit_content_rule_end, rx_dit_content_rule_ngroups)
+  | 3%Z => Some (rx_noidlen, rx_noidlen_end, rx_noidlen_ngroups)
+  | 4%Z => Some (rx_attribute, rx_attribute_end, rx_attribute_ngroups)
+  | _ => None
+  end.
+Definition s_match (r : rx) (e : end_anchor) (n : nat) (t : ustr) : sexp :=
+  match re_match r e t with
+  | BYes p cs =>
+      SList [SInt 0; SInt (Z.of_nat p);
+             SList (map (fun g => match cap_lookup g cs with
+                                  | Some (a, b) => SList [SInt (Z.of_nat a); SInt (Z.of_nat b)]
+                                  | None => SList [] end) (seq 1 n))]
+  | BNo => SList [SInt 1]
+  | BFuel => SList [SInt 2]
+  end.
+
 (* sentence text, executable well-formedness, denotation, and what the model's parser makes of the text *)
 Definition cst_answer {A} (sa : A -> sexp) (text : ustr) (wf : bool) (d : A) (parse : ustr -> res A) : sexp :=
   SList [s_ustr text; s_bool wf; sa d; s_res sa (parse text)].
@@ -381,6 +402,7 @@ Definition run_schema (cmd : Z) (args : list sexp) : option sexp :=
   | 320, [o] => o <-? g_oc o ;; Some (s_bool (wf_oc_b o))
   | 321, [o] => o <-? g_at o ;; Some (s_bool (wf_at_b o))
   | 322, [o] => o <-? g_dcr o ;; Some (s_bool (wf_dcr_b o))
+  | 340, [SInt i; t] => t <-? g_ustr t ;; match rx_by_id i with Some (r, e, n) => Some (s_match r e n t) | None => None end
   | 330, [c] => c <-? g_occ c ;; Some (cst_answer s_oc (oc_sentence c) (oc_cst_b c) (oc_denote c) oc_from_string)
   | 331, [c] => c <-? g_atc c ;; Some (cst_answer s_at (at_sentence c) (at_cst_b c) (at_denote c) at_from_string)
   | 332, [c] => c <-? g_dcrc c ;; Some (cst_answer s_dcr (dcr_sentence c) (dcr_cst_b c) (dcr_denote c) dcr_from_string)
